@@ -46,7 +46,7 @@ type c09Req struct {
 
 type c09Fault struct {
 	K    int `json:"call"`
-	Code int `json:"code"` // 1 = ChunkMissing, 2 = other store error, 3 = GetChunk succeeds but the object cannot be decoded (C10 only)
+	Code int `json:"code"` // 1 = ChunkMissing, 2 = other store error, 3 = GetChunk succeeds but the object cannot be decoded (C10 only), 4 = io.EOF itself, 5 = an error wrapping io.EOF
 }
 
 type c09Case struct {
@@ -56,6 +56,7 @@ type c09Case struct {
 	BlobHex string     `json:"blob_hex"`
 	Sizes   []int      `json:"sizes"`
 	Shape   string     `json:"shape"`
+	Router  bool       `json:"store_router,omitempty"` // the store sits behind a desync.StoreRouter, as `desync mount-index` and `cat` always have it (it wraps every error but ChunkMissing)
 	Missing []int      `json:"missing_chunks,omitempty"` // chunk numbers absent from the store
 	Faults  []c09Fault `json:"faults,omitempty"`
 	Ops     []c09Op    `json:"ops,omitempty"`
@@ -80,6 +81,7 @@ type c09Store struct {
 	faults  map[int]int
 	calls   int
 	faulted int // number of calls that returned an error
+	eofs    int // number of calls that returned io.EOF itself
 	// gate: the next GetChunk call announces itself on gateHit and waits for gateCh (a request held inside the store)
 	gateArmed bool
 	gateHit   chan struct{}
@@ -88,8 +90,6 @@ type c09Store struct {
 
 func (s *c09Store) GetChunk(id desync.ChunkID) (*desync.Chunk, error) {
 	s.mu.Lock()
-	k := s.calls
-	s.calls++
 	var wait chan struct{}
 	if s.gateArmed {
 		s.gateArmed = false
@@ -102,11 +102,19 @@ func (s *c09Store) GetChunk(id desync.ChunkID) (*desync.Chunk, error) {
 	}
 	s.mu.Lock()
 	defer s.mu.Unlock()
+	// the call is numbered (and answered) when it goes through, as in the model, where the store call is one atomic step
+	k := s.calls
+	s.calls++
 	if c, ok := s.faults[k]; ok {
 		s.faulted++
 		switch c {
 		case 1:
 			return nil, desync.ChunkMissing{ID: id}
+		case 4: // the remote went away: the error IS io.EOF
+			s.eofs++
+			return nil, io.EOF
+		case 5: // ... or an error whose chain contains io.EOF (what remote stores and a StoreRouter report)
+			return nil, fmt.Errorf("read tcp 10.0.0.1:443: connection closed: %w", io.EOF)
 		case 3:
 			// a store without verification hands out an object that cannot be decoded: GetChunk succeeds, Chunk.Data() fails
 			return desync.NewChunkFromStorage(id, []byte("this is not a zstd frame"), desync.Converters{desync.Compressor{}}, true)
@@ -123,6 +131,11 @@ func (s *c09Store) GetChunk(id desync.ChunkID) (*desync.Chunk, error) {
 func (s *c09Store) HasChunk(id desync.ChunkID) (bool, error) { _, ok := s.m[id]; return ok, nil }
 func (s *c09Store) Close() error                             { return nil }
 func (s *c09Store) String() string                           { return "c09-mem" }
+func (s *c09Store) counters3() (int, int, int) {
+	s.mu.Lock()
+	defer s.mu.Unlock()
+	return s.calls, s.faulted, s.eofs
+}
 func (s *c09Store) counters() (int, int) {
 	s.mu.Lock()
 	defer s.mu.Unlock()
@@ -136,6 +149,10 @@ func c09ErrClass(err error) string {
 		return "ok"
 	case err == io.EOF:
 		return "eof"
+	case err == io.ErrUnexpectedEOF:
+		return "unexpected-eof"
+	case errors.Is(err, io.EOF):
+		return "wrapped-eof"
 	case errors.As(err, &cm):
 		return "missing"
 	case errors.Is(err, errC09Fault):
@@ -190,10 +207,22 @@ func c09Build(c *c09Case) (desync.Index, *c09Store, []byte, string, string) {
 	return idx, st, blob, strings.Join(rows, ","), strings.Join(tab, ",")
 }
 
+// c09Store wraps the fault store the way the case says
+func c09StoreFor(c *c09Case, st *c09Store) desync.Store {
+	if c.Router {
+		return desync.NewStoreRouter(st)
+	}
+	return st
+}
+
 func c09FaultArg(c *c09Case) string {
 	var fs []string
 	for _, f := range c.Faults {
-		fs = append(fs, fmt.Sprintf("%d:%d", f.K, f.Code))
+		code := f.Code
+		if c.Router && code == 4 { // the router annotates the store's io.EOF: the reader sees a wrapped one
+			code = 5
+		}
+		fs = append(fs, fmt.Sprintf("%d:%d", f.K, code))
 	}
 	return strings.Join(fs, ",")
 }
@@ -231,7 +260,7 @@ func c09RunIpos(c *c09Case) (obs string, failAt int, cls, what string, hung bool
 	var finalPos int64
 	cur := 0
 	p, hung := c09Guarded(func() {
-		r := desync.NewIndexReadSeeker(idx, st)
+		r := desync.NewIndexReadSeeker(idx, c09StoreFor(c, st))
 		var pos int64 // the position the property says the reader is at
 		for i, o := range c.Ops {
 			cur = i
@@ -293,7 +322,7 @@ func c09RunIpos(c *c09Case) (obs string, failAt int, cls, what string, hung bool
 					// Chunk.Data() of an empty chunk: "no data in chunk" (observed, modelled as ENoData); the bytes were checked above
 				case pos < L && err != nil && f1 == f0:
 					fail(i, "read/error-with-healthy-store", fmt.Sprintf("Read(%d) at %d returned error %v although the store did not fail", o.Len, pos, err))
-				case pos < L && err != nil && ec != "missing" && ec != "fault":
+				case pos < L && err != nil && ec != "missing" && ec != "fault" && ec != "unexpected-eof" && ec != "wrapped-eof":
 					fail(i, "read/store-error-masked", fmt.Sprintf("Read(%d) at %d returned %v instead of the store's error", o.Len, pos, err))
 				}
 				if pos+int64(n) <= L {
@@ -578,14 +607,14 @@ func c09GenFaults(rng *vh.Rand, c *c09Case, expectCalls int) {
 	case 0, 1: // healthy
 	case 2:
 		for k := 0; k < 1+rng.Intn(3); k++ {
-			c.Faults = append(c.Faults, c09Fault{K: rng.Intn(expectCalls + 2), Code: 1 + rng.Intn(2)})
+			c.Faults = append(c.Faults, c09Fault{K: rng.Intn(expectCalls + 2), Code: []int{1, 2, 2, 4, 5, 5}[rng.Intn(6)]})
 		}
 	case 3:
 		if len(c.Sizes) > 0 {
 			c.Missing = append(c.Missing, rng.Intn(len(c.Sizes)))
 		}
 		if rng.Bool() {
-			c.Faults = append(c.Faults, c09Fault{K: rng.Intn(expectCalls + 2), Code: 2})
+			c.Faults = append(c.Faults, c09Fault{K: rng.Intn(expectCalls + 2), Code: []int{2, 4, 5}[rng.Intn(3)]})
 		}
 	}
 }
@@ -614,7 +643,7 @@ func c09RunFuse(c *c09Case) (obs string, failAt int, cls, what string, hung bool
 		defer func() { os.Stderr = saved; dn.Close() }()
 	}
 	p, hung := c09Guarded(func() {
-		root := desync.NewIndexMountFS(idx, "blob", st)
+		root := desync.NewIndexMountFS(idx, "blob", c09StoreFor(c, st))
 		raw := fs.NewNodeFS(root, &fs.Options{})
 		cancel := make(chan struct{})
 		var eo fuse.EntryOut
@@ -916,7 +945,7 @@ func runC09(a vh.Args, o *vh.Oracle, r *vh.Result) error {
 		if rng.Chance(1, 5) {
 			d = "sha512-256"
 		}
-		return &c09Case{Kind: kind, Digest: d, Max: max, BlobHex: vh.Hex(blob), Sizes: sizes, Shape: shape}
+		return &c09Case{Kind: kind, Digest: d, Max: max, BlobHex: vh.Hex(blob), Sizes: sizes, Shape: shape, Router: rng.Bool()}
 	}
 	for i := 0; i < nIpos; i++ {
 		c := mk("ipos")
